@@ -1,5 +1,6 @@
 import Proofs.Lemmas.SSZCanonical
 import Zrnt.Gen.SszFacts
+import Proofs.Lemmas.SSZSchemaLegal
 /-!
 # C04 — SSZ encoding round-trips, agrees with declared lengths, and malformed input is refused
 
@@ -72,6 +73,38 @@ theorem encode_injective (t : Ty) (v w : Val) (hl : t.Legal) (hv : WF t v) (hw :
   rw [h1] at h2
   exact Option.some.inj h2
 
+/-! ## The generic theorems apply to every type of the specification schema, under every configuration -/
+
+open Zrnt.Schema in
+/-- Every entry of the specification schema is a legal SSZ type under every configuration with positive
+constants and at least one member per sync subcommittee (mainnet, minimal and every custom preset used by the
+correspondence run are such configurations). -/
+theorem schema_types_legal (c : Config) (hpos : ∀ k, 0 < c k) (hsync : 4 ≤ c n!"SYNC_COMMITTEE_SIZE") :
+    ∀ e ∈ Spec.table, (e.2.eval c).Legal := by
+  intro e he
+  have hc : GoodConfig schemaDivs c := by
+    refine ⟨hpos, ?_⟩
+    intro d hd
+    simp only [schemaDivs, List.mem_singleton] at hd
+    subst hd
+    simp only [LExpr.eval]
+    omega
+  exact legalS_sound schemaDivs c hc e.2 (List.all_eq_true.mp table_legalS e he)
+
+open Zrnt.Schema in
+/-- **Round trip for every schema type, every configuration, every value** (the quantifier of the property). -/
+theorem schema_round_trip (c : Config) (hpos : ∀ k, 0 < c k) (hsync : 4 ≤ c n!"SYNC_COMMITTEE_SIZE")
+    (name : Name) (st : STy) (h : Spec.lookup name = some st) (v : Val) (hw : WF (st.eval c) v)
+    (hlen : (encode (st.eval c) v).length < 2 ^ 32) :
+    decode (st.eval c) (encode (st.eval c) v) = some v := by
+  unfold Spec.lookup at h
+  cases hf : Spec.table.find? (·.1 == name) with
+  | none => simp [hf] at h
+  | some e =>
+    simp only [hf, Option.map_some, Option.some.injEq] at h
+    subst h
+    exact decode_encode _ v (schema_types_legal c hpos hsync e (List.mem_of_find?_eq_some hf)) hw hlen
+
 /-! ## The Go types against the specification schema (facts regenerated from /repo on every run) -/
 
 open Zrnt.Schema Zrnt.Schema.Facts Zrnt.Gen.SszFacts in
@@ -115,6 +148,7 @@ theorem ssz_types_complete :
 def exTy : Ty := .struct [("a", .uint 2), ("b", .list (.uint 1) 4), ("c", .bitlist 5)]
 def exVal : Val := .seq [.num 258, .seq [.num 7, .num 9], .bits [true, false, true]]
 
+example : ∃ c : Zrnt.Schema.Config, (∀ k, 0 < c k) ∧ 4 ≤ c n!"SYNC_COMMITTEE_SIZE" := ⟨fun _ => 4, fun _ => Nat.succ_pos 3, Nat.le_refl 4⟩
 example : exTy.Legal := by simp [exTy, Ty.struct, Fields.ofList, Ty.Legal, Fields.Legal, Fields.length]
 example : WF exTy exVal := by simp [exTy, exVal, Ty.struct, Fields.ofList, WF, WFFields]
 example : encode exTy exVal = [2, 1, 10, 0, 0, 0, 12, 0, 0, 0, 7, 9, 13] := by decide
